@@ -1,3 +1,5 @@
+//go:build !no_c01
+
 package props
 
 import (
